@@ -1,6 +1,7 @@
 package props
 
 import (
+	"time"
 	"net"
 	"bytes"
 	"crypto/aes"
@@ -714,4 +715,70 @@ func firstDiffIndex(a, b []byte) int {
 		}
 	}
 	return len(a)
+}
+
+// clientKeyUpdateReplyFails — an established TLS 1.3 connection on which the SERVER sends
+// KeyUpdate(update_requested) and then data under its new keys, while the client's transport has started
+// to fail writes (the client half-closed, its write deadline passed, the peer stopped reading): the client
+// cannot send its own KeyUpdate back, but what it reads must still be exactly what the server sent
+// (C25), and Read / Close must return (C33).
+func clientKeyUpdateReplyFails(prop string) *explore.Scenario {
+	ids := []tls.ClientHelloID{tls.HelloGolang, tls.HelloChrome_Auto, tls.HelloFirefox_Auto}
+	return &explore.Scenario{
+		Name:     "server-key-update-while-the-client-cannot-write",
+		Watchdog: 30 * time.Second, HangSig: prop + "|hang|key-update-reply-write-fails",
+		Run: func(x *explore.X) (r explore.Result) {
+			id := ids[x.Choose("client", len(ids))]
+			requested := x.Choose("update-requested", 2) == 1
+			failing := x.Choose("client-writes-fail", 2) == 1
+			updates := 1 + x.Choose("updates", 2)
+			what := fmt.Sprintf("%s: %d x (server KeyUpdate(update_requested=%v), 300 bytes); client transport writes fail=%v", id.Client, updates, requested, failing)
+			msg := payload(300, 0x6b)
+			ready := make(chan struct{})
+			hs := peer.Run(peer.ClientConfig("example.com"), id, peer.ServerConfig(), peer.Opts{KeepOpen: true,
+				ServerAfter: func(s *tls.Conn) error {
+					<-ready
+					for i := 0; i < updates; i++ {
+						if err := tls.VerifSendKeyUpdate(s, requested); err != nil {
+							return err
+						}
+						if _, err := s.Write(msg); err != nil {
+							return err
+						}
+					}
+					return nil
+				}})
+			defer hs.Finish()
+			if !hs.OK() || hs.U.ConnectionState().Version != tls.VersionTLS13 {
+				close(ready)
+				r.Obs = "no-tls13-handshake"
+				return
+			}
+			r.Nontrivial = true
+			r.Class = what
+			hs.CE.FailWrites = failing
+			close(ready)
+			got := make([]byte, updates*len(msg))
+			var k int
+			var err error
+			if pm := catch(func() { k, err = io.ReadFull(hs.U, got) }); pm != "" {
+				r.Violate(prop+"|client-panic|key-update-reply-write-fails", "%s: %s", what, truncStr(pm, 300))
+				return
+			}
+			if err != nil {
+				r.Violate(fmt.Sprintf("%s|key-update-reply-write-fails|read-error|%s", prop, truncStr(errClass(err), 50)), "%s: read %d of %d bytes: %v", what, k, len(got), err)
+			} else {
+				for i := 0; i < updates; i++ {
+					if !bytes.Equal(got[i*len(msg):(i+1)*len(msg)], msg) {
+						r.Violate(prop+"|key-update-reply-write-fails|data-differs", "%s: round %d", what, i)
+					}
+				}
+			}
+			if pm := catch(func() { hs.U.Close() }); pm != "" {
+				r.Violate(prop+"|client-panic|close-after-key-update", "%s: %s", what, truncStr(pm, 300))
+			}
+			r.Obs = fmt.Sprintf("read=%d|%s", k, errClass(err))
+			return
+		},
+	}
 }
